@@ -677,6 +677,133 @@ static std::string run_ptr(const Case& c, vf::Ctx& ctx)
     return "";
 }
 
+// the hash depends on every part of a long text component: single-character variants at 64
+// positions spread over the text hash differently from the original (up to rare collisions)
+template <class T>
+static std::string run_long_text(const Case& c, vf::Ctx& ctx)
+{
+    if (c.x.s.size() <= 64 || (c.type == T_VARIANT && c.x.alt % 2 == 0))
+        return "";
+    ctx.tag("component:long-text");
+    ctx.mark_nontrivial();
+    std::size_t base = nitro::lang::hash(make<T>(c.x));
+    int collide = 0;
+    std::size_t first = 0;
+    for (int k = 0; k < 64; ++k)
+    {
+        Val v = c.x;
+        std::size_t pos = (static_cast<std::size_t>(k) * v.s.size()) / 64;
+        v.s[pos] = static_cast<char>(v.s[pos] ^ 1);
+        if (nitro::lang::hash(make<T>(v)) == base)
+        {
+            if (!collide)
+                first = pos;
+            ++collide;
+        }
+    }
+    if (collide > 2)
+        return std::string(type_name(c.type)) + ": " + std::to_string(collide) +
+               " of 64 values that differ from the original in one character of a text component of " +
+               std::to_string(c.x.s.size()) + " characters hash like the original (first at position " +
+               std::to_string(first) + "): the hash does not depend on every component";
+    return "";
+}
+
+// the operators are those of the member tuple also where the member tuple is not totally ordered
+// (a NaN member), for distinct objects and for an object compared with itself
+static std::string run_nan(const Case& c, vf::Ctx& ctx)
+{
+    ctx.tag("member:nan");
+    S3 x(c.x), y(c.y);
+    const double nan = std::nan("");
+    x.d = nan;
+    if (c.z.i % 2)
+        y.d = nan;
+    auto agree = [&](S3& a, S3& b, const char* what) -> std::string {
+        auto ta = std::make_tuple(a.a, a.s, a.d), tb = std::make_tuple(b.a, b.s, b.d);
+        bool ok = (a < b) == (ta < tb) && (a > b) == (ta > tb) && (a == b) == (ta == tb) && (a != b) == (ta != tb) &&
+                  (a <= b) == (ta <= tb) && (a >= b) == (ta >= tb);
+        if (!ok)
+            return std::string("S3 with a NaN member, ") + what + ": operators < > == != <= >= give " +
+                   std::to_string(a < b) + std::to_string(a > b) + std::to_string(a == b) + std::to_string(a != b) +
+                   std::to_string(a <= b) + std::to_string(a >= b) + ", the member tuples give " +
+                   std::to_string(ta < tb) + std::to_string(ta > tb) + std::to_string(ta == tb) +
+                   std::to_string(ta != tb) + std::to_string(ta <= tb) + std::to_string(ta >= tb) + " (x=" +
+                   val_str(c.x) + " y=" + val_str(c.y) + ")";
+        return "";
+    };
+    std::string m = agree(x, y, "two objects");
+    if (m.empty())
+        m = agree(y, x, "two objects");
+    if (m.empty())
+        m = agree(x, x, "an object and itself");
+    return m;
+}
+
+// a variant left without a value by a throwing emplace is still a value: equal to every other
+// valueless variant, so it hashes like them and can be a key
+struct TV : nitro::lang::tuple_operators<TV>
+{
+    explicit TV(int v) : a(v)
+    {
+    }
+    TV(const TV& o) : a(o.a)
+    {
+    }
+    TV(TV&& o) : a(o.a) // may throw as far as the type system knows
+    {
+    }
+    TV& operator=(const TV&) = default;
+    auto as_tuple()
+    {
+        return std::tie(a);
+    }
+    int a;
+};
+struct ThrowsOnConversion
+{
+    operator TV() const
+    {
+        throw 42;
+    }
+};
+using VarT = std::variant<int, TV>;
+static std::string run_valueless(const Case& c, vf::Ctx& ctx)
+{
+    VarT v1(static_cast<int>(c.x.i)), v2(std::in_place_index<1>, TV(static_cast<int>(c.y.i)));
+    for (VarT* v : { &v1, &v2 })
+    {
+        try
+        {
+            v->emplace<1>(ThrowsOnConversion{});
+        }
+        catch (int)
+        {
+        }
+    }
+    if (!v1.valueless_by_exception() || !v2.valueless_by_exception())
+        return ""; // this standard library keeps the old value: nothing to check
+    ctx.tag("variant:valueless");
+    try
+    {
+        if (nitro::lang::hash(v1) != nitro::lang::hash(v2))
+            return "two valueless variants compare equal but hash differently";
+        auto t1 = std::make_tuple(1, v1), t2 = std::make_tuple(1, v2);
+        if (nitro::lang::hash(t1) != nitro::lang::hash(t2))
+            return "two equal tuples holding a valueless variant hash differently";
+        nitro::lang::unordered_set<VarT> set;
+        set.insert(v1);
+        set.insert(VarT(3));
+        if (set.count(v2) != 1 || set.count(VarT(3)) != 1 || set.count(VarT(4)) != 0)
+            return "hash container keyed by variants does not find an inserted valueless key";
+    }
+    catch (const std::exception& e)
+    {
+        return std::string("hashing a valueless variant (equal to every other valueless variant) raised: ") + e.what();
+    }
+    return "";
+}
+
 static Val gen_val(vf::Src& src, bool wide)
 {
     Val v;
@@ -684,6 +811,15 @@ static Val gen_val(vf::Src& src, bool wide)
     v.i = src.coin(wide ? 50 : 100) ? edge[src.index(13)] : static_cast<long long>(src.range(0, 0xffffffffull)) - 0x80000000ll;
     static const std::vector<std::string> ss = { "", "a", "b", "ab", "ba", "aa", "\xff", "a\x80", "abc" };
     v.s = src.coin(70) ? src.pick(ss) : src.bytes_nonul(0, 6);
+    if (src.coin(6))
+    {
+        // a long text: longer than any small-string buffer or sampling window
+        static const int lens[] = { 65, 129, 200, 257, 1000 };
+        int n = lens[src.index(5)];
+        v.s.clear();
+        for (int i = 0; i < n; ++i)
+            v.s.push_back(static_cast<char>('a' + (i * 7 + n) % 23));
+    }
     v.d = src.irange(0, NDTAB - 1);
     v.alt = src.irange(0, 1);
     return v;
@@ -716,7 +852,11 @@ Case generate(vf::Src& src, const std::string& mode)
             c.y.i = gen_val(src, true).i;
             break;
         case 1:
-            c.y.s = gen_val(src, true).s;
+            if (c.x.s.size() > 64 && src.coin(70))
+                // one character somewhere inside a long text
+                c.y.s[src.index(c.y.s.size())] ^= 1;
+            else
+                c.y.s = gen_val(src, true).s;
             break;
         case 2:
             c.y.d = src.irange(0, NDTAB - 1);
@@ -781,6 +921,8 @@ std::string check(const Case& c, vf::Ctx& ctx)
             m = run_container<S2>(c, ctx);
         if (m.empty())
             m = run_mutation<S2>(c, ctx);
+        if (m.empty())
+            m = run_long_text<S2>(c, ctx);
         break;
     case T_S3:
         m = run_random<S3>(c, true, ctx);
@@ -788,6 +930,10 @@ std::string check(const Case& c, vf::Ctx& ctx)
             m = run_container<S3>(c, ctx);
         if (m.empty())
             m = run_mutation<S3>(c, ctx);
+        if (m.empty())
+            m = run_long_text<S3>(c, ctx);
+        if (m.empty())
+            m = run_nan(c, ctx);
         break;
     case T_S4:
         m = run_random<S4>(c, true, ctx);
@@ -800,16 +946,24 @@ std::string check(const Case& c, vf::Ctx& ctx)
         m = run_random<Tup>(c, false, ctx);
         if (m.empty())
             m = run_container<Tup>(c, ctx);
+        if (m.empty())
+            m = run_long_text<Tup>(c, ctx);
         break;
     case T_PAIR:
         m = run_random<Pr>(c, false, ctx);
         if (m.empty())
             m = run_container<Pr>(c, ctx);
+        if (m.empty())
+            m = run_long_text<Pr>(c, ctx);
         break;
     case T_VARIANT:
         m = run_random<Var>(c, false, ctx);
         if (m.empty())
             m = run_container<Var>(c, ctx);
+        if (m.empty())
+            m = run_long_text<Var>(c, ctx);
+        if (m.empty())
+            m = run_valueless(c, ctx);
         break;
     case T_S5:
         m = run_random<S5>(c, true, ctx);
@@ -817,6 +971,8 @@ std::string check(const Case& c, vf::Ctx& ctx)
             m = run_container<S5>(c, ctx);
         if (m.empty())
             m = run_mutation<S5>(c, ctx);
+        if (m.empty())
+            m = run_long_text<S5>(c, ctx);
         break;
     default:
         m = run_ptr(c, ctx);
